@@ -8,14 +8,18 @@ Local Open Scope N_scope.
 Section ProofsB.
   Variable L : layout.
   Variable content : N -> N -> N.
+  Variable enc : bool.
+  Variable ks : N -> N.
 
-  Notation fill := (fill L).
-  Notation ew := (ew L content).
-  Notation step := (step L content).
-  Notation run := (run L content).
-  Notation run_from := (run_from L content).
+  Notation fill := (fill L enc ks).
+  Notation ew := (ew L content enc ks).
+  Notation step := (step L content enc ks).
+  Notation run := (run L content enc ks).
+  Notation run_from := (run_from L content enc ks).
+  Notation up_chunk := (up_chunk content enc ks).
+  Notation up_chunk_same := (up_chunk_same content enc ks).
 
-  Ltac sel := cbn [set_ws write_buf write_payload choked queue obuf msgs out last_piece cur closed ws send_choked].
+  Ltac sel := cbn [set_ws write_buf write_payload choked queue obuf msgs out last_piece cur closed ws send_choked ebuf eb_end kpos].
 
   (* ---------- provenance of queue entries and PIECE messages ---------- *)
   Lemma fill_queue_sub : forall s p, In p (queue (fill s)) -> In p (queue s).
@@ -56,10 +60,11 @@ Section ProofsB.
       destruct (last_piece (write_buf s _));
         match goal with |- context [ew f ?k' ?s'] => destruct (IH k' s' p) as [A B]; revert A B end;
         unfold write_buf; sel; tauto.
-    - destruct (N.min k (p_len (cur s)) =? 0); [tauto|].
-      destruct (p_len (cur (write_payload content s _)) =? 0); [|unfold write_payload; sel; tauto].
-      match goal with |- context [ew f ?k' ?s'] => destruct (IH k' s' p) as [A B]; revert A B end;
-        unfold write_payload; sel; tauto.
+    - pose proof (up_chunk_same s k) as (Q & M & _). destruct (up_chunk s k) as [s1 n]. cbn [fst] in *.
+      destruct (n =? 0); [rewrite Q, M; tauto|].
+      destruct (p_len (cur s1) =? 0);
+        match goal with |- context [ew f ?k' ?s'] => destruct (IH k' s' p) as [A B]; revert A B end;
+        sel; rewrite Q, M; tauto.
   Qed.
 
   Lemma step_queue : forall s o p, In p (queue (step s o)) ->
@@ -128,23 +133,27 @@ Section ProofsB.
     exact (proj2 (provenance ops2 (run ops1) p) H).
   Qed.
   (* ---------- choke_clears ---------- *)
-  Lemma fill_quiet : forall s, choked s = true -> send_choked s = false -> fill s = s.
-  Proof. intros s Hc Hs. unfold Model.fill. rewrite Hs, Hc. reflexivity. Qed.
+  Lemma fill_quiet : forall s, choked s = true -> send_choked s = false ->
+    msgs (fill s) = msgs s /\ queue (fill s) = queue s /\ choked (fill s) = true /\ send_choked (fill s) = false.
+  Proof. intros s Hc Hs. unfold Model.fill. rewrite Hs, Hc. sel. auto. Qed.
 
   Lemma ew_choked_quiet : forall f k s, choked s = true -> send_choked s = false ->
     msgs (ew f k s) = msgs s /\ queue (ew f k s) = queue s.
   Proof.
     induction f as [|f IH]; intros k s Hc Hs; cbn [Model.ew]; [tauto|].
     destruct (ws s).
-    - rewrite (fill_quiet s Hc Hs). destruct (closed s); [tauto|]. destruct (obuf s); [tauto|].
-      apply (IH k (set_ws s Msg)); assumption.
+    - destruct (fill_quiet s Hc Hs) as (M & Q & C & S). destruct (closed (fill s)); [tauto|].
+      destruct (obuf (fill s)); [tauto|].
+      destruct (IH k (set_ws (fill s) Msg)) as [A B]; sel; try assumption. revert A B; sel. rewrite M, Q. tauto.
     - destruct (N.min k (N.of_nat (length (obuf s))) =? 0); [tauto|].
       destruct (obuf (write_buf s _)); [|unfold write_buf; sel; tauto].
       destruct (last_piece (write_buf s _));
         match goal with |- context [ew f ?k' ?s'] => apply (IH k' s'); assumption end.
-    - destruct (N.min k (p_len (cur s)) =? 0); [tauto|].
-      destruct (p_len (cur (write_payload content s _)) =? 0); [|unfold write_payload; sel; tauto].
-      match goal with |- context [ew f ?k' ?s'] => apply (IH k' s'); assumption end.
+    - pose proof (up_chunk_same s k) as (Q & M & C & S & _). destruct (up_chunk s k) as [s1 n]. cbn [fst] in *.
+      destruct (n =? 0); [tauto|].
+      destruct (p_len (cur s1) =? 0);
+        match goal with |- context [ew f ?k' ?s'] => destruct (IH k' s') as [A B]; sel; try congruence; revert A B; sel end;
+        rewrite Q, M; tauto.
   Qed.
 
   Lemma fill_shape : forall s, exists m1, msgs (fill s) = m1 ++ msgs s /\
@@ -194,12 +203,12 @@ Section ProofsB.
       destruct (last_piece (write_buf s _));
         match goal with |- context [ew f ?k' ?s'] => destruct (IH k' s') as (m & Hm & Hcl) end;
         exists m; split; assumption.
-    - destruct (N.min k (p_len (cur s)) =? 0).
-      { exists []. split; [reflexivity|]. intros []. }
-      destruct (p_len (cur (write_payload content s _)) =? 0).
-      2:{ exists []. split; [reflexivity|]. intros []. }
-      match goal with |- context [ew f ?k' ?s'] => destruct (IH k' s') as (m & Hm & Hcl) end.
-      exists m; split; assumption.
+    - pose proof (up_chunk_same s k) as (Q & M & _). destruct (up_chunk s k) as [s1 n]. cbn [fst] in *.
+      destruct (n =? 0).
+      { exists []. rewrite M, Q. split; [reflexivity|]. intros []. }
+      destruct (p_len (cur s1) =? 0);
+        match goal with |- context [ew f ?k' ?s'] => destruct (IH k' s') as (m & Hm & Hcl) end;
+        revert Hm; sel; rewrite M; intro Hm; exists m; split; assumption.
   Qed.
 
   (* choke_clears: in any write call, at any point of any history: if a CHOKE goes into the write
@@ -243,7 +252,7 @@ Section ProofsB.
     closed s' = true /\ out s' = out s /\ msgs s' = msgs s.
   Proof.
     intros s p q Hws Hcl Hch Hq Hbad k. cbn zeta. cbn [Model.step]. rewrite Hcl.
-    replace (ew_fuel s) with (S (3 * length (queue s) + 7))%nat by (unfold ew_fuel; lia).
+    replace (ew_fuel s) with (S (13 * length (queue s) + 29))%nat by (unfold ew_fuel; lia).
     cbn [Model.ew]. rewrite Hws.
     assert (E : closed (fill s) = true /\ out (fill s) = out s /\ msgs (fill s) = msgs s).
     { unfold Model.fill. destruct (send_choked s); sel; rewrite ?Hch; sel; rewrite Hq; sel; rewrite Hbad; sel; auto. }
